@@ -35,7 +35,7 @@ type meshCase struct {
 var meshOpKinds = []string{
 	"add", "add", "add", "add", "readd", "remove", "remove", "removeabsent", "addmesh",
 	"copy", "copy", "switch", "deepcopy", "translate", "scale", "snap", "xformobj", "invert",
-	"qfind1", "qfind2", "qfind3", "qneighbors", "qneighborsnew", "qvertices", "qitervertices", "qallneighbors", "qminmax", "qfull",
+	"qfind1", "qfind2", "qfind3", "qneighbors", "qneighborsnew", "qvertices", "qitervertices", "qallneighbors", "qminmax", "qfull", "qmapcount",
 }
 
 func genMeshCase(t *rapid.T) meshCase {
@@ -66,6 +66,41 @@ type meshState3 struct {
 	pool      []model3d.Coord3D
 	indexed   bool // a query that builds the lazy index has run on this mesh object
 	mutatedAI int  // mutations performed while indexed
+	kept      []keptAnswer3
+}
+
+// An answer of Find / Neighbors belongs to the caller: it reads the same whatever is done to the mesh afterwards,
+// and the caller may overwrite it without the mesh noticing.
+type keptAnswer3 struct {
+	res  []*model3d.Triangle // the slice the library returned
+	copy []*model3d.Triangle // what it held at that moment
+	what string
+}
+
+func (s *meshState3) keepAnswer(res []*model3d.Triangle, what string) {
+	s.kept = append(s.kept, keptAnswer3{res, append([]*model3d.Triangle{}, res...), what})
+	if len(s.kept) > 3 {
+		// the oldest answer is given up: the caller reuses the slice for something else
+		old := s.kept[0]
+		for i := range old.res {
+			old.res[i] = nil
+		}
+		s.kept = s.kept[1:]
+	}
+}
+
+func (s *meshState3) keptIntact() error {
+	for _, k := range s.kept {
+		if len(k.res) != len(k.copy) {
+			return fmt.Errorf("an earlier answer of %s changed length", k.what)
+		}
+		for i := range k.res {
+			if k.res[i] != k.copy[i] {
+				return fmt.Errorf("the answer of an earlier %s changed in the caller's hands: entry %d of %d is another face now", k.what, i, len(k.res))
+			}
+		}
+	}
+	return nil
 }
 
 func (s *meshState3) faces() []*model3d.Triangle {
@@ -189,8 +224,54 @@ func (s *meshState3) qFind(ps ...model3d.Coord3D) error {
 			want = append(want, f)
 		}
 	}
-	if err := samePtrSet3(s.m.Find(ps...), want); err != nil {
+	res := s.m.Find(ps...)
+	if err := samePtrSet3(res, want); err != nil {
 		return fmt.Errorf("Find(%v): %w", ps, err)
+	}
+	s.keepAnswer(res, fmt.Sprintf("Find(%v)", ps))
+	return nil
+}
+
+// qMapCount: MapCoords asks f once per vertex, so that an f with a state of its own (random jitter, as in
+// examples/romantic/wedding_cake) moves each vertex as a whole and the faces stay connected.
+func (s *meshState3) qMapCount() error {
+	calls := 0
+	f := func(p model3d.Coord3D) model3d.Coord3D {
+		calls++
+		return mk3(1e6+float64(calls), p.Y, cz3(p))
+	}
+	res := s.m.MapCoords(f)
+	verts := s.vertices()
+	if calls != len(verts) {
+		return fmt.Errorf("MapCoords called its function %d times for a mesh with %d distinct vertices", calls, len(verts))
+	}
+	// faces per vertex, before and after
+	degrees := func(list []model3d.Triangle) []int {
+		d := map[model3d.Coord3D]int{}
+		for _, t := range list {
+			seen := map[model3d.Coord3D]bool{}
+			for _, p := range t {
+				if !seen[p] {
+					seen[p] = true
+					d[p]++
+				}
+			}
+		}
+		var out []int
+		for _, n := range d {
+			out = append(out, n)
+		}
+		sort.Ints(out)
+		return out
+	}
+	var before, after []model3d.Triangle
+	for _, t := range s.faces() {
+		before = append(before, *t)
+	}
+	res.Iterate(func(t *model3d.Triangle) { after = append(after, *t) })
+	db, da := degrees(before), degrees(after)
+	if fmt.Sprint(db) != fmt.Sprint(da) {
+		return fmt.Errorf("MapCoords with a function that gives every vertex a new place: faces per vertex %v before, %v after", db, da)
 	}
 	return nil
 }
@@ -215,9 +296,11 @@ func (s *meshState3) qNeighbors(f *model3d.Triangle) error {
 			want = append(want, t)
 		}
 	}
-	if err := samePtrSet3(s.m.Neighbors(f), want); err != nil {
+	res := s.m.Neighbors(f)
+	if err := samePtrSet3(res, want); err != nil {
 		return fmt.Errorf("Neighbors(%v): %w", *f, err)
 	}
+	s.keepAnswer(res, fmt.Sprintf("Neighbors(%v)", *f))
 	return nil
 }
 
@@ -601,6 +684,13 @@ func checkMeshCase(c meshCase, o *kit.Obs) error {
 			err = s.qMinMax()
 		case "qfull":
 			err = s.full()
+		case "qmapcount":
+			err = s.qMapCount()
+		}
+		for _, x := range live {
+			if err == nil {
+				err = x.keptIntact()
+			}
 		}
 		for i, x := range live {
 			if err == nil {
